@@ -912,3 +912,23 @@ func mmEngineSeq(root []MNode, files map[string][]MNode, globals Val, ctxs []Val
 	}
 	return outs, errs, nil
 }
+
+
+// meMentions: does the expression name one of the given names?
+func meMentions(e *ME, names map[string]bool) bool {
+	if e == nil {
+		return false
+	}
+	if (e.K == "name" || e.K == "call") && names[e.N] {
+		return true
+	}
+	if meMentions(e.L, names) || meMentions(e.R, names) {
+		return true
+	}
+	for i := range e.Args {
+		if meMentions(&e.Args[i], names) {
+			return true
+		}
+	}
+	return false
+}
